@@ -1,0 +1,76 @@
+//go:build verif
+
+package minter
+
+import (
+	"math/big"
+	"sync"
+
+	"github.com/MinterTeam/minter-go-node/coreV2/appdb"
+	"github.com/MinterTeam/minter-go-node/coreV2/state"
+	"github.com/MinterTeam/minter-go-node/coreV2/types"
+	abciTypes "github.com/tendermint/tendermint/abci/types"
+)
+
+// Verification hooks (build tag `verif`). They only observe: no consensus logic lives here.
+
+var verifStops sync.Map // *Blockchain -> int (number of stop() calls)
+
+// verifStop makes a halt / unknown-version stop observable without os.Exit.
+func verifStop(b *Blockchain) bool {
+	n := 0
+	if v, ok := verifStops.Load(b); ok {
+		n = v.(int)
+	}
+	verifStops.Store(b, n+1)
+	b.stopped = false
+	return true
+}
+
+// VerifStopCount returns how many times stop() was called on this instance.
+func (blockchain *Blockchain) VerifStopCount() int {
+	if v, ok := verifStops.Load(blockchain); ok {
+		return v.(int)
+	}
+	return 0
+}
+
+// VerifCheckTx is CheckTx with an explicit gas-price floor (no Tendermint mempool needed).
+func (blockchain *Blockchain) VerifCheckTx(req abciTypes.RequestCheckTx, minGasPrice uint32) abciTypes.ResponseCheckTx {
+	response := blockchain.executor.RunTx(blockchain.CurrentState(), req.Tx, nil, blockchain.Height()+1, blockchain.currentMempool, minGasPrice, true)
+	return abciTypes.ResponseCheckTx{
+		Code:      response.Code,
+		Data:      response.Data,
+		Log:       response.Log,
+		Info:      response.Info,
+		GasWanted: response.GasWanted,
+		GasUsed:   response.GasUsed,
+	}
+}
+
+// VerifResetMempool clears the one-tx-per-sender map.
+func (blockchain *Blockchain) VerifResetMempool() { blockchain.currentMempool = &sync.Map{} }
+
+// VerifAppDB exposes the application DB.
+func (blockchain *Blockchain) VerifAppDB() *appdb.AppDB { return blockchain.appDB }
+
+// VerifStateDeliver exposes the mutable state.
+func (blockchain *Blockchain) VerifStateDeliver() *state.State { return blockchain.stateDeliver }
+
+// VerifTotalPower returns the total power computed by the last calculatePowers call.
+func (blockchain *Blockchain) VerifTotalPower() *big.Int { return blockchain.totalPower }
+
+// VerifValidatorsPowers returns a copy of the powers map.
+func (blockchain *Blockchain) VerifValidatorsPowers() map[types.Pubkey]*big.Int {
+	res := map[types.Pubkey]*big.Int{}
+	for k, v := range blockchain.validatorsPowers {
+		res[k] = new(big.Int).Set(v)
+	}
+	return res
+}
+
+// VerifWaitSnapshots waits for background snapshot goroutines.
+func (blockchain *Blockchain) VerifWaitSnapshots() {
+	blockchain.appDB.WG.Wait()
+	blockchain.wgSnapshot.Wait()
+}
